@@ -229,6 +229,25 @@ def get_cell(name):
     return cell, cen
 
 
+UNIMODULAR = [np.array(m) for m in ([[1, 1, 0], [0, 1, 0], [0, 0, 1]], [[1, 0, 0], [0, 1, 1], [0, 0, 1]], [[0, 1, 0], [0, 0, 1], [1, 0, 0]],
+                                       [[1, 0, 0], [-1, 1, 0], [0, 1, 1]], [[0, -1, 0], [1, 0, 0], [0, 0, 1]], [[1, 0, 1], [0, 1, 0], [0, 0, 1]],
+                                       [[2, 1, 0], [1, 1, 0], [0, 0, 1]], [[1, 1, 1], [0, 1, 1], [0, 0, 1]])]
+
+
+def pick_pmat(rng, cen):
+    """(primitive_matrix argument, label): the centring symbol, 'auto', or an explicit matrix = centring matrix times a
+    unimodular integer matrix (the same primitive lattice in another basis)."""
+    from phonopy.structure.cells import get_primitive_matrix_by_centring
+
+    r = rng.random()
+    if r < 0.5:
+        return cen, cen
+    if r < 0.7:
+        return "auto", "auto"
+    um = UNIMODULAR[rng.randrange(len(UNIMODULAR))]
+    return get_primitive_matrix_by_centring(cen) @ um, "%s*U%s" % (cen, um.tolist())
+
+
 def make_case(rng, names, max_ns, max_det=6):
     """(ph, info) for a random prototype / supercell matrix / primitive matrix; None if rejected."""
     name = rng.choice(names)
@@ -237,10 +256,8 @@ def make_case(rng, names, max_ns, max_det=6):
     det = int(round(np.linalg.det(smat)))
     if len(cell) * det > max_ns:
         return None
-    pm = cen if cen != "P" else "P"
-    if cen != "P" and rng.random() < 0.3:
-        pm = "auto"
-    return name, cell, smat, pm
+    pm, pmlabel = pick_pmat(rng, cen)
+    return name, cell, smat, pm, pmlabel
 
 
 def supercell_in_prim(ph):
